@@ -1,1 +1,689 @@
-//! wakesim — engine skeleton (see DESIGN.md §4/§5).
+//! wakesim — C16 "no wake-up is ever lost" (DESIGN §4, §5/C16).
+//!
+//! A case is one waiter/notifier protocol of the stack plus a schedule: a list of operations, each of
+//! which is ONE call into the real type (one lock-protected operation). Waiter operations poll, re-poll
+//! with a different waker (task migration) or drop the waiter's real future; notifier operations set the
+//! condition / notify / close. The executor plays the schedule and then applies the audit poll:
+//!
+//! * quiescence: every waiter that is asleep (last poll `Pending`) and whose waker was not invoked since
+//!   that poll is polled once more (composite waits: the send condition is re-evaluated); `Ready` now
+//!   means the wake-up was lost                                              → `lost-wakeup:<protocol>`
+//! * a close/fail operation must have invoked the waker of every sleeper, and any poll after it must be
+//!   `Ready`                                                         → `close-leaves-sleeper:<protocol>`
+//!
+//! Nothing about WHICH value a poll returns is judged.
+//!
+//! `generate(index, ..)`: indexes below [`enumerated_total`] are decoded into (protocol, scenario,
+//! interleaving) — all order-preserving merges of the per-actor scripts of every scenario with ≤ 8 steps,
+//! i.e. the permutations of the multiset of actor labels, unranked lexicographically. Higher indexes
+//! are seeded samples (1–3 waiters, 1–3 notifier actors, optional close script, random merge).
+pub mod basic;
+pub mod pkt;
+pub mod proto;
+pub mod streams;
+pub mod tlskeys;
+
+use std::sync::OnceLock;
+
+use serde::{Deserialize, Serialize};
+use simcore::{Engine, Outcome, Rng, Tier, TraceHash, engine::intern, wake::Task};
+
+use proto::{ALL, Act, Fired, Fut, Proto, Protocol, Spec, Yielder, spec};
+
+#[derive(Clone, Debug, Serialize, Deserialize, PartialEq)]
+pub enum Op {
+    /// poll waiter i's pending future once with its task's waker (creates the future if it has none)
+    Poll(u8),
+    /// task migration: the same future is polled by a fresh task (different waker)
+    PollNewWaker(u8),
+    /// the waiter gives up (select! lost, timeout): its future is dropped
+    DropFuture(u8),
+    /// one notifier / closer call
+    Act(Act),
+}
+
+#[derive(Clone, Debug, Serialize, Deserialize)]
+pub struct Case {
+    pub protocol: Protocol,
+    pub waiters: u8,
+    pub ops: Vec<Op>,
+    /// also run the "second task on the same slot" probe (recorded, never judged)
+    pub probe: bool,
+    /// ordinal in the enumerated space, if this case was decoded rather than sampled
+    pub enumerated: Option<u64>,
+}
+
+pub struct WakeSim;
+
+// ---------------------------------------------------------------------------------------------------
+// enumeration
+
+struct Block {
+    protocol: Protocol,
+    waiters: u8,
+    actors: Vec<Vec<Op>>,
+    count: u64,
+    start: u64,
+}
+
+fn factorial(n: usize) -> u64 {
+    (1..=n as u64).product()
+}
+
+fn multinomial(counts: &[usize]) -> u64 {
+    let n: usize = counts.iter().sum();
+    counts.iter().fold(factorial(n), |acc, c| acc / factorial(*c))
+}
+
+fn scenarios(p: Protocol) -> Vec<(u8, Vec<Vec<Op>>)> {
+    let sp = spec(p);
+    let polls = if sp.composite { 4 } else { 3 };
+    let w0: Vec<Op> = (0..polls).map(|_| Op::Poll(0)).collect();
+    let closes: Vec<Op> = sp.closes.iter().map(|a| Op::Act(*a)).collect();
+    let set = |k: usize| Op::Act(sp.sets[k % sp.sets.len()]);
+    let mut out: Vec<(u8, Vec<Vec<Op>>)> = Vec::new();
+    let fit = |mut actors: Vec<Vec<Op>>| {
+        // at most 8 steps: trim the longest actor
+        while actors.iter().map(|a| a.len()).sum::<usize>() > 8 {
+            let i = (0..actors.len()).max_by_key(|i| actors[*i].len()).unwrap();
+            actors[i].pop();
+        }
+        actors.retain(|a| !a.is_empty());
+        actors
+    };
+    // A: one waiter, every consecutive pair of notifier actions, the close script
+    for k in 0..sp.sets.len() {
+        let mut actors = vec![w0.clone(), vec![set(k), set(k + 1)]];
+        if !closes.is_empty() {
+            actors.push(closes.clone());
+        }
+        out.push((1, fit(actors)));
+    }
+    // B: the waiter migrates to another task / gives up and starts over
+    if sp.migrate_ok {
+        let mut actors = vec![vec![Op::Poll(0), Op::PollNewWaker(0), Op::Poll(0)], vec![set(0), set(1)]];
+        if !closes.is_empty() {
+            actors.push(closes.clone());
+        }
+        out.push((1, fit(actors)));
+    }
+    {
+        let mut actors = vec![vec![Op::Poll(0), Op::DropFuture(0), Op::Poll(0)], vec![set(0), set(0)]];
+        if !closes.is_empty() {
+            actors.push(closes.clone());
+        }
+        out.push((1, fit(actors)));
+    }
+    // C: two concurrent waiters where the protocol has more than one slot
+    if sp.max_waiters >= 2 {
+        let mut actors = vec![
+            vec![Op::Poll(0), Op::Poll(0)],
+            vec![Op::Poll(1), Op::Poll(1)],
+            vec![set(0), set(1)],
+        ];
+        if !closes.is_empty() {
+            actors.push(closes.clone());
+        }
+        out.push((2, fit(actors)));
+    }
+    // D: two independent notifiers racing one waiter
+    if sp.sets.len() >= 2 {
+        let actors = vec![w0.clone(), vec![set(0), set(0)], vec![set(1), set(1)]];
+        out.push((1, fit(actors)));
+    }
+    out
+}
+
+fn blocks() -> &'static (Vec<Block>, u64) {
+    static B: OnceLock<(Vec<Block>, u64)> = OnceLock::new();
+    B.get_or_init(|| {
+        let mut v = Vec::new();
+        let mut start = 0u64;
+        for p in ALL {
+            for (waiters, actors) in scenarios(*p) {
+                let counts: Vec<usize> = actors.iter().map(|a| a.len()).collect();
+                let count = multinomial(&counts);
+                v.push(Block { protocol: *p, waiters, actors, count, start });
+                start += count;
+            }
+        }
+        (v, start)
+    })
+}
+
+/// number of enumerated cases (indexes `0..enumerated_total()` of a batch are the exhaustive part)
+pub fn enumerated_total() -> u64 {
+    blocks().1
+}
+
+/// (protocol name, scenarios, interleavings) per protocol, for the report
+pub fn enumerated_summary() -> Vec<(&'static str, usize, u64)> {
+    let mut out: Vec<(&'static str, usize, u64)> = Vec::new();
+    for b in &blocks().0 {
+        let name = spec(b.protocol).name;
+        match out.last_mut() {
+            Some(l) if l.0 == name => {
+                l.1 += 1;
+                l.2 += b.count;
+            }
+            _ => out.push((name, 1, b.count)),
+        }
+    }
+    out
+}
+
+/// k-th (lexicographic by actor index) order-preserving merge of the actors' scripts
+fn unrank(actors: &[Vec<Op>], mut k: u64) -> Vec<Op> {
+    let mut left: Vec<usize> = actors.iter().map(|a| a.len()).collect();
+    let total: usize = left.iter().sum();
+    let mut ops = Vec::with_capacity(total);
+    for _ in 0..total {
+        for a in 0..actors.len() {
+            if left[a] == 0 {
+                continue;
+            }
+            left[a] -= 1;
+            let n = multinomial(&left);
+            if k < n {
+                ops.push(actors[a][actors[a].len() - left[a] - 1].clone());
+                break;
+            }
+            k -= n;
+            left[a] += 1;
+        }
+    }
+    ops
+}
+
+fn decode(index: u64) -> Case {
+    let (bs, _) = blocks();
+    let i = bs.partition_point(|b| b.start + b.count <= index);
+    let b = &bs[i];
+    Case {
+        protocol: b.protocol,
+        waiters: b.waiters,
+        ops: unrank(&b.actors, index - b.start),
+        probe: false,
+        enumerated: Some(index),
+    }
+}
+
+fn sample(seed: u64) -> Case {
+    let mut r = Rng::derive(seed, "sched");
+    // composite waits need two polls before they park: give them a third of the samples
+    let protocol = if r.one_in(3) {
+        let comp: Vec<Protocol> = ALL.iter().copied().filter(|p| spec(*p).composite).collect();
+        *r.pick(&comp)
+    } else {
+        *r.pick(ALL)
+    };
+    let sp = spec(protocol);
+    let waiters = r.range(1, sp.max_waiters.min(3) as u64) as u8;
+    let mut actors: Vec<Vec<Op>> = Vec::new();
+    for w in 0..waiters {
+        let n = r.range(2, if sp.composite { 7 } else { 5 });
+        let mut s = vec![Op::Poll(w)];
+        for _ in 1..n {
+            s.push(match r.below(10) {
+                0 if sp.migrate_ok => Op::PollNewWaker(w),
+                1 => Op::DropFuture(w),
+                _ => Op::Poll(w),
+            });
+        }
+        actors.push(s);
+    }
+    if !sp.sets.is_empty() {
+        for _ in 0..r.range(1, 3) {
+            let n = r.range(1, 3);
+            actors.push((0..n).map(|_| Op::Act(*r.pick(&sp.sets))).collect());
+        }
+    }
+    if !sp.closes.is_empty() && r.chance(0.4) {
+        actors.push(sp.closes.iter().map(|a| Op::Act(*a)).collect());
+    }
+    // random order-preserving merge: the schedule
+    let mut idx = vec![0usize; actors.len()];
+    let mut ops = Vec::new();
+    loop {
+        let live: Vec<usize> = (0..actors.len()).filter(|a| idx[*a] < actors[*a].len()).collect();
+        if live.is_empty() {
+            break;
+        }
+        let a = *r.pick(&live);
+        ops.push(actors[a][idx[a]].clone());
+        idx[a] += 1;
+    }
+    Case { protocol, waiters, ops, probe: r.one_in(300), enumerated: None }
+}
+
+// ---------------------------------------------------------------------------------------------------
+// executor
+
+struct Waiter {
+    fut: Option<Fut>,
+    task: Task,
+    /// asleep: the last poll returned Pending at a real await point
+    asleep: bool,
+    /// between two steps of a composite wait (harness yield): still runnable
+    runnable: bool,
+    polled_after_close: bool,
+}
+
+struct Run<'a> {
+    sp: &'a Spec,
+    proto: Box<dyn Proto>,
+    y: Yielder,
+    ws: Vec<Waiter>,
+    out: Outcome,
+    th: TraceHash,
+    closed: bool,
+    progress: bool,
+    faults: u64,
+    step: u64,
+}
+
+impl Run<'_> {
+    fn fault(&mut self, k: &'static str) {
+        self.faults += 1;
+        self.out.stats.bump(k);
+    }
+
+    /// one poll of waiter i; returns true iff Ready
+    fn poll(&mut self, i: usize, audit: bool) -> bool {
+        if self.ws[i].fut.is_none() {
+            let f = self.proto.spawn(i, &self.y);
+            self.ws[i].fut = Some(f);
+            self.out.stats.bump("probe.future_created");
+        }
+        let was_asleep = self.ws[i].asleep;
+        let woken = self.ws[i].task.take_woken();
+        if was_asleep && !woken && !audit {
+            self.fault("fault.spurious_poll");
+        }
+        if was_asleep && woken {
+            self.out.stats.bump("probe.repoll_after_wake");
+        }
+        let after_wake = was_asleep && woken;
+        let _ = self.y.take();
+        let task = self.ws[i].task.clone();
+        let res = task.poll_pin(self.ws[i].fut.as_mut().unwrap().as_mut());
+        let yielded = self.y.take();
+        let w = &mut self.ws[i];
+        if self.closed {
+            w.polled_after_close = true;
+        }
+        self.th.add(0x100 + i as u64);
+        match res {
+            std::task::Poll::Ready(()) => {
+                w.fut = None;
+                w.asleep = false;
+                w.runnable = false;
+                self.progress = true;
+                self.th.add(1);
+                self.out.stats.bump("probe.poll_ready");
+                if after_wake {
+                    let key = format!("cov.{}.ready_after_sleep_and_wake", self.sp.name);
+                    self.out.stats.bump(intern(&key));
+                }
+                true
+            }
+            std::task::Poll::Pending => {
+                w.asleep = !yielded;
+                w.runnable = yielded;
+                if yielded && after_wake {
+                    let key = format!("cov.{}.resumed_after_sleep_and_wake", self.sp.name);
+                    self.out.stats.bump(intern(&key));
+                }
+                self.th.add(if yielded { 3 } else { 2 });
+                if !yielded {
+                    self.out.stats.bump("probe.poll_pending");
+                    if self.closed && self.sp.close_ready {
+                        let name = self.sp.name;
+                        self.out.violate(
+                            "close-leaves-sleeper",
+                            name,
+                            format!("waiter {i}: a poll after the close returned Pending (it registered a waker nobody will invoke)"),
+                            self.step,
+                        );
+                    }
+                }
+                false
+            }
+        }
+    }
+
+    fn act(&mut self, a: Act) {
+        let any_asleep = self.ws.iter().any(|w| w.asleep && !w.task.is_woken());
+        let any_between = self.ws.iter().any(|w| w.runnable);
+        let any_woken_unpolled = self.ws.iter().any(|w| w.asleep && w.task.is_woken());
+        let none_started = self.ws.iter().all(|w| w.fut.is_none());
+        let sleepers: Vec<usize> =
+            (0..self.ws.len()).filter(|i| self.ws[*i].asleep && self.ws[*i].fut.is_some() && !self.ws[*i].task.is_woken()).collect();
+        let fired = self.proto.act(a);
+        if fired != Fired::Nop && !sleepers.is_empty() {
+            let woke = sleepers.iter().filter(|i| self.ws[**i].task.is_woken()).count();
+            let key = format!("cov.{}.{:?}.{}", self.sp.name, a, if woke > 0 { "woke_sleeper" } else { "left_sleeper_asleep" });
+            self.out.stats.bump(intern(&key));
+        }
+        self.th.add(0x200 + fired as u64);
+        match fired {
+            Fired::Nop => {
+                self.out.stats.bump("probe.action_not_applicable");
+                return;
+            }
+            Fired::Done | Fired::ClosePart => {
+                if any_between {
+                    self.fault("fault.notify_between_check_and_register");
+                }
+                if any_asleep {
+                    self.fault("fault.notify_while_asleep");
+                }
+                if any_woken_unpolled {
+                    self.fault("fault.notify_between_wake_and_repoll");
+                }
+                if none_started {
+                    self.fault("fault.notify_before_first_poll");
+                }
+                if self.closed {
+                    self.fault("fault.notify_after_close");
+                }
+                if fired == Fired::ClosePart {
+                    self.out.stats.bump("probe.close_first_step");
+                }
+            }
+            Fired::Close => {
+                self.closed = true;
+                if any_between {
+                    self.fault("fault.close_between_check_and_register");
+                }
+                if none_started {
+                    self.fault("fault.close_before_first_poll");
+                }
+                let name = self.sp.name;
+                let mut hit = false;
+                for (i, w) in self.ws.iter().enumerate() {
+                    if w.asleep && w.fut.is_some() {
+                        hit = true;
+                        if !w.task.is_woken() {
+                            self.out.violate(
+                                "close-leaves-sleeper",
+                                name,
+                                format!("waiter {i} was asleep when {a:?} closed the object and its waker was not invoked"),
+                                self.step,
+                            );
+                        }
+                    }
+                }
+                if hit {
+                    self.fault("fault.close_while_pending");
+                }
+            }
+        }
+    }
+
+    fn quiesce_and_audit(&mut self) {
+        // 1. tasks that are between two steps keep running until they park or finish
+        for _ in 0..32 {
+            let Some(i) = (0..self.ws.len()).find(|i| self.ws[*i].runnable) else { break };
+            self.out.stats.bump("probe.ran_to_park_at_quiescence");
+            self.poll(i, true);
+        }
+        // 2. the audit poll: asleep and never woken since
+        let name = self.sp.name;
+        for i in 0..self.ws.len() {
+            if !(self.ws[i].asleep && self.ws[i].fut.is_some()) || self.ws[i].task.is_woken() {
+                continue;
+            }
+            let ready = match self.proto.audit_condition(i) {
+                Some(r) => r,
+                None => self.poll(i, true),
+            };
+            if ready && !self.closed {
+                self.out.violate(
+                    "lost-wakeup",
+                    name,
+                    format!("waiter {i} was asleep, its waker was never invoked, yet its condition is satisfied (audit found it Ready)"),
+                    self.step,
+                );
+            } else if ready {
+                self.out.stats.bump("probe.audit_ready_after_close");
+            } else {
+                self.out.stats.bump("probe.audit_still_pending");
+            }
+        }
+        // 3. woken but not re-polled: the executor would re-poll — do it, classify, never judge (except after close)
+        for i in 0..self.ws.len() {
+            if self.ws[i].asleep && self.ws[i].fut.is_some() && self.ws[i].task.is_woken() {
+                if self.poll(i, true) {
+                    self.out.stats.bump("probe.audit_found_ready_after_wake");
+                } else {
+                    self.out.stats.bump("probe.audit_pending_after_wake");
+                }
+            }
+        }
+    }
+}
+
+/// Two tasks park on the same slot of a single-consumer protocol, then the first notifier action fires.
+/// Outcome is recorded only: (panicked | first woken | first overwritten).
+fn two_task_probe(p: Protocol, stats: &mut simcore::Stats) {
+    let sp = spec(p);
+    let res = simcore::panics::guarded(|| {
+        let mut proto = proto::build(p);
+        let y = Yielder::default();
+        let (ta, tb) = (Task::new(), Task::new());
+        for a in &sp.probe_prelude {
+            proto.act(*a);
+        }
+        let mut fa = proto.spawn(0, &y);
+        let mut fb = proto.spawn(0, &y);
+        // composite waits: step over the yield so that both are parked in wait_for
+        let mut pend = (true, true);
+        for _ in 0..2 {
+            pend.0 = ta.poll_pin(fa.as_mut()).is_pending();
+            pend.1 = tb.poll_pin(fb.as_mut()).is_pending();
+        }
+        if !(pend.0 && pend.1) {
+            return None;
+        }
+        let before = (ta.wakes(), tb.wakes());
+        if let Some(a) = sp.sets.first() {
+            proto.act(*a);
+        }
+        Some((ta.wakes() > before.0, tb.wakes() > before.1))
+    });
+    let key = match res {
+        Err(_) => format!("probe.two_tasks.{}.panics", sp.name),
+        Ok(None) => format!("probe.two_tasks.{}.not_parked", sp.name),
+        Ok(Some((true, true))) => format!("probe.two_tasks.{}.both_woken", sp.name),
+        Ok(Some((true, false))) => format!("probe.two_tasks.{}.only_first_woken", sp.name),
+        Ok(Some((false, true))) => format!("probe.two_tasks.{}.first_overwritten", sp.name),
+        Ok(Some((false, false))) => format!("probe.two_tasks.{}.none_woken", sp.name),
+    };
+    stats.bump(intern(&key));
+    // sequential variant: the first task gives up (drops its future) before another task starts to wait
+    let res = simcore::panics::guarded(|| {
+        let mut proto = proto::build(p);
+        let y = Yielder::default();
+        for a in &sp.probe_prelude {
+            proto.act(*a);
+        }
+        let (ta, tb) = (Task::new(), Task::new());
+        let mut fa = proto.spawn(0, &y);
+        for _ in 0..2 {
+            let _ = ta.poll_pin(fa.as_mut());
+        }
+        drop(fa);
+        let mut fb = proto.spawn(0, &y);
+        let mut pending = true;
+        for _ in 0..2 {
+            pending = tb.poll_pin(fb.as_mut()).is_pending();
+        }
+        if !pending {
+            return None;
+        }
+        if let Some(a) = sp.sets.first() {
+            proto.act(*a);
+        }
+        Some(tb.is_woken())
+    });
+    let key = match res {
+        Err(_) => format!("probe.next_task_after_drop.{}.panics", sp.name),
+        Ok(None) => format!("probe.next_task_after_drop.{}.not_parked", sp.name),
+        Ok(Some(true)) => format!("probe.next_task_after_drop.{}.woken", sp.name),
+        Ok(Some(false)) => format!("probe.next_task_after_drop.{}.not_woken", sp.name),
+    };
+    stats.bump(intern(&key));
+}
+
+impl Engine for WakeSim {
+    type Case = Case;
+
+    fn name(&self) -> &'static str {
+        "wakesim"
+    }
+
+    fn components_real(&self) -> Vec<&'static str> {
+        vec![
+            "qbase::net::tx::{ArcSendWaker, ArcSendWakers}",
+            "qbase::util::{ArcAsyncDeque, BoundQueue, Wakers}",
+            "qbase::ArcReceiving",
+            "qbase::packet::keys::{ArcKeys, ArcZeroRttKeys, ArcOneRttKeys}",
+            "qbase::param::ArcParameters",
+            "qbase::sid::ArcLocalStreamIds",
+            "qbase::cid::{ArcRemoteCids, ArcCidCell}",
+            "qbase::flow::ArcSendControler",
+            "qrecovery::streams::DataStreams (Reader, Writer, Incoming, Outgoing, ArcListener)",
+            "qrecovery::crypto::CryptoStream",
+            "qrecovery::reliable::ArcReliableFrameDeque",
+            "qdatagram::DatagramFlow",
+            "qconnection::path::{AntiAmplifier, SendBuffer, RecvBuffer}",
+        ]
+    }
+
+    fn components_stub(&self) -> Vec<&'static str> {
+        vec![
+            "task executor (counting wakers, explicit schedule)",
+            "burst loop of qconnection/src/path.rs (scripted: evaluate, then tx_waker.wait_for(signals))",
+            "packet target (byte buffer recording loaded frames)",
+        ]
+    }
+
+    fn generate(&self, index: u64, seed: u64, _tier: Tier) -> Case {
+        if index < enumerated_total() { decode(index) } else { sample(seed) }
+    }
+
+    fn execute(&self, case: &Case) -> Outcome {
+        let sp = spec(case.protocol);
+        let n = (case.waiters as usize).clamp(1, sp.max_waiters);
+        let mut run = Run {
+            sp: &sp,
+            proto: proto::build(case.protocol),
+            y: Yielder::default(),
+            ws: (0..n)
+                .map(|_| Waiter { fut: None, task: Task::new(), asleep: false, runnable: false, polled_after_close: false })
+                .collect(),
+            out: Outcome::default(),
+            th: TraceHash::default(),
+            closed: false,
+            progress: false,
+            faults: 0,
+            step: 0,
+        };
+        run.out.stats.bump(intern(&format!("probe.{}", sp.name)));
+        if case.enumerated.is_some() {
+            run.out.stats.bump("probe.enumerated_case");
+        }
+        run.th.add_str(sp.name);
+        for (k, op) in case.ops.iter().enumerate() {
+            run.step = k as u64;
+            match op {
+                Op::Poll(i) if (*i as usize) < n => {
+                    run.poll(*i as usize, false);
+                }
+                Op::PollNewWaker(i) if (*i as usize) < n => {
+                    let i = *i as usize;
+                    if sp.migrate_ok {
+                        if run.ws[i].fut.is_some() {
+                            run.fault("fault.waker_migration");
+                        }
+                        // the old task's wake-ups reach nobody any more; a wake that already happened means the
+                        // executor re-polls — which is this very poll
+                        run.ws[i].task = Task::new();
+                        if run.ws[i].asleep {
+                            // the re-poll is not spurious from the scheduler's point of view: mark as woken
+                            run.ws[i].asleep = false;
+                        }
+                    }
+                    run.poll(i, false);
+                }
+                Op::DropFuture(i) if (*i as usize) < n => {
+                    let w = &mut run.ws[*i as usize];
+                    if w.fut.take().is_some() {
+                        w.asleep = false;
+                        w.runnable = false;
+                        run.fault("fault.drop_future");
+                    }
+                    run.th.add(0x300 + *i as u64);
+                }
+                Op::Act(a) => run.act(*a),
+                _ => {}
+            }
+        }
+        run.step = case.ops.len() as u64;
+        run.quiesce_and_audit();
+        for w in &run.ws {
+            run.th.add(w.task.wakes());
+        }
+        if case.probe {
+            if sp.two_task_probe {
+                two_task_probe(case.protocol, &mut run.out.stats);
+            }
+            if case.protocol == Protocol::BoundQueueRecv {
+                let accepted = basic::bound_queue_accepts(2, 64);
+                run.out.stats.add("probe.bound_queue_cap2_accepted_of_64", accepted as u64);
+                run.out.stats.bump("probe.bound_queue_capacity_probes");
+            }
+        }
+        let mut out = run.out;
+        out.trace_hash = run.th.get();
+        out.nontrivial = run.faults > 0 && run.progress;
+        out
+    }
+
+    fn shrink(&self, case: &Case) -> Vec<Case> {
+        let mut v = Vec::new();
+        let n = case.ops.len();
+        let plain = |ops: Vec<Op>, waiters: u8| Case { ops, waiters, probe: false, enumerated: None, ..case.clone() };
+        if n > 1 {
+            v.push(plain(case.ops[..n / 2].to_vec(), case.waiters));
+            v.push(plain(case.ops[..n - 1].to_vec(), case.waiters));
+        }
+        if case.waiters > 1 {
+            let w = case.waiters - 1;
+            let ops = case
+                .ops
+                .iter()
+                .filter(|o| match o {
+                    Op::Poll(i) | Op::PollNewWaker(i) | Op::DropFuture(i) => *i < w,
+                    _ => true,
+                })
+                .cloned()
+                .collect();
+            v.push(plain(ops, w));
+        }
+        for i in 0..n {
+            let mut ops = case.ops.clone();
+            ops.remove(i);
+            v.push(plain(ops, case.waiters));
+        }
+        for i in 0..n {
+            if let Op::PollNewWaker(w) = case.ops[i] {
+                let mut ops = case.ops.clone();
+                ops[i] = Op::Poll(w);
+                v.push(plain(ops, case.waiters));
+            }
+        }
+        v
+    }
+}
